@@ -11,6 +11,8 @@ impl HashSet<String> {
     #[verifier::external_body] pub fn remove(&mut self, k: &String) -> (r: bool) { unimplemented!() }
     #[verifier::external_body] pub fn extend(&mut self, other: HashSet<String>) { unimplemented!() }
     #[verifier::external_body] pub fn union_with(&mut self, other: &HashSet<String>) { unimplemented!() }   // for u in &other { self.insert(u.clone()) }
+    #[verifier::external_body] pub fn is_disjoint(&self, other: &HashSet<String>) -> (r: bool) { unimplemented!() }
+    #[verifier::external_body] pub fn is_empty(&self) -> (r: bool) { unimplemented!() }
 }
 pub trait VClone: Sized { fn vclone(&self) -> (r: Self) ensures r == *self; }
 impl VClone for String { #[verifier::external_body] fn vclone(&self) -> (r: Self) { unimplemented!() } }
